@@ -58,7 +58,8 @@ func (c13Prop) Phases(tier string) []PhaseCfg {
 	if tier == "thorough" {
 		n = 20_000_000
 	}
-	return []PhaseCfg{{Name: "seeded", Count: n}, {Name: "multi-container", Count: n / 3, P: map[string]int{"multi": 1}}}
+	return []PhaseCfg{{Name: "seeded", Count: n}, {Name: "multi-container", Count: n / 3, P: map[string]int{"multi": 1}},
+		{Name: "scheduled-pairs", Count: n / 20, P: map[string]int{"pair": 1}}}
 }
 
 func mutateToken(t *Tape, s string) string {
@@ -86,6 +87,11 @@ func mutateToken(t *Tape, s string) string {
 }
 
 func (c13Prop) Gen(t *Tape, ph *PhaseCfg) Case {
+	if ph != nil && ph.P["pair"] == 1 {
+		g := genPair(t, func() Case { return genMultiOpt(t, true) })
+		g.MapOrder = true
+		return g
+	}
 	if ph != nil && ph.P["multi"] == 1 {
 		// several typed containers at once (lists may share one default slice object of the host program):
 		// every one of them must hold exactly the parse of the tokens it was given
@@ -237,6 +243,9 @@ func (c13Prop) Gen(t *Tape, ph *PhaseCfg) Case {
 }
 
 func (c13Prop) Exec(cc Case, st *Stats) *Violation {
+	if g, ok := cc.(*genericPair); ok {
+		return multiPairExec(g, st, true, true)
+	}
 	if m, ok := cc.(*multiCase); ok {
 		return multiExecOpt(m, st, true, true)
 	}
